@@ -1,13 +1,39 @@
 """C01 - A step is never launched before all of its dependencies succeeded
 
 Execution-graph correspondence (real ExecutionGraph driven by the scripted
-scheduler vs Model/Exec.lean, state compared after every operation) and the
-C01 monitor of harness/execsim.py evaluated on the real traces."""
+scheduler vs Model/Exec.lean, state compared after every operation), the C01
+monitor of harness/execsim.py evaluated on the real traces, and study-level
+runs: generated parameterised specifications are staged by the real
+Study.stage / Conductor.initialize and run through the real monitor loop, each
+launch being checked against the parents in the staged graph's adjacency
+table."""
+import os
+import shutil
+
+import condsim
 import execprop
+from corr import Case, compare, judge, account
 
 LEVEL = "proof"
-RULE = execprop.RULE
+RULE = execprop.RULE + "; plus study-level runs of staged parameterised specifications"
 
 
 def run(ctx, escalated=False):
-    execprop.run(ctx, "C01", escalated)
+    quick = ctx.tier == "quick" and not escalated
+    cases = execprop.run(ctx, "C01", escalated, finish=False)
+    extra = []
+    for k in range(60 if quick else 2000):
+        r = condsim.run(ctx, ctx.rng, k)
+        if r is None:
+            continue
+        extra.append(Case({"kind": "conductor", "spec": r["spec"], "polls": r["polls"], "returned": r["ret"]},
+                          [], [], r["mon"]["C01"][:3], r["polls"] > 1))
+        ctx.count("conductor:" + r["ret"])
+        if k % 30 == 29:
+            shutil.rmtree(os.path.join(ctx.scratch, "cond"), ignore_errors=True)
+    import scripted as S
+    S.install()
+    cases = cases + extra
+    diffs = compare([c for c in cases if c.lines])
+    account(ctx, extra)
+    judge(ctx, cases, diffs, "execution-graph+study-level", shrink=execprop.shrink_factory(ctx, "C01"))
